@@ -53,6 +53,22 @@ CLAIMED = {
    text="Exhaustive static inventory of every panic-capable construct (unwrap/expect/panic!/todo!/index/overflow/div-by-zero asserts, documented-to-panic std/time APIs) reachable in the workspace call graph from tokenize/parse/analyze/render/CLI entry points; each site is discharged by a range/guard argument re-derived from the MIR on every run, justified by a listed invariant, or reported. Plus who-writes bound for FixedPoint.femptos, indent/outdent typestate over the renderer CFGs. Decides the 'never panics' clause for all inputs as far as the listed invariants hold; termination/time/stack are not decided. Thorough tier cross-references the inventory against an independent clippy restriction-lint run (recall check).",
    design="3 C04", technique="static analysis: MIR panic-site inventory over the resolved call graph, guard dominance and range propagation, typestate dataflow"),
 }
+ADD = {
+ "C01": " Round 2: every recurse_fold arm rebuilds the variant it matched and feeds each field from the same-named field (R-C01-foldid); iterators over parsed nodes are consumed whole (R-C01-partial); consumed captures and drained declaration kinds (R-C01-consume/-drain).",
+ "C02": " Round 2: no recurse_visit drops a child's Result (R-C02-propagate); a non-recursing override that inspects descendant nodes by hand covers every field below which that type occurs; scope stacks are used at one end only (R-C02-stackend); scoped visitors add names only below an enter/exit bracket (R-C02-bracket).",
+ "C03": " Round 2: the two by-name maps are drained independently after the sort (R-C03-merge); resolve_types merges every source on every iteration and Library::extend appends wholesale (R-C03-allsources).",
+ "C05": " Round 2: the LSP character is not computed from byte quantities (numeric backward slice, R-C05-units); a label's offsets are only combined with the file looked up from that label's file_id (R-C05-pair); a line advance in the lexer re-bases the column (R-C05-linecol); the OSCAT pre-processor writes byte for byte (R-C05-blank); joined spans keep a file id.",
+ "C06": " Round 2: every source library is merged unconditionally and wholesale (R-C06-allsources); scope stack end agreement and enter/exit bracketing of name additions (R-C06-stackend, R-C06-bracket).",
+ "C07": " Round 2: the name->node maps of the declaration graphs are keyed by Id (R-C07-keys).",
+ "C08": " Round 2: the END_IF terminator inserter is evaluated as a transition table over (pending state x token class) with four obligations (R-C08-endif); trivia accepted between every adjacent token pair of every reachable production (R-C08-trivia).",
+ "C09": " Round 2: literal text is not trimmed content-dependently (R-C09-trim).",
+ "C10": " Round 2: operands of binary/compare expressions are parenthesised by every writer (R-C10-paren); block keywords and qualifiers are written unconditionally (R-C10-uncond); every f64->text conversion is checked for a fraction point (R-C10-real).",
+ "C11": " Round 2: the LSP character is not computed from byte quantities (R-C11-units); joined spans keep the file id the server filters on (R-C11-join).",
+ "C12": " Round 2: the text cut by map_label is the text of the label's own file (R-C12-pair); the pre-processor keeps byte positions (R-C12-blank).",
+ "C13": " Round 2: every Err(Vec<Diagnostic>) built in the product crates is non-empty on its path (R-C13-nonempty); directory expansion drops no entry (R-C13-dir).",
+ "C14": " Round 2: offsets are used on the string they were found in (R-C14-samestr); the pre-processor keeps byte positions (R-C14-blank).",
+ "C15": " Round 2: token line/column: a line advance re-bases the column (R-C15-linecol); the pre-processor keeps byte positions (R-C15-blank).",
+}
 NA_REASON = "check not built yet (round 1 in progress); see DESIGN.md section 3 for the planned static rules"
 props = [json.loads(l) for l in open("/verif/properties.jsonl")]
 checks = []
@@ -67,7 +83,7 @@ for p in props:
         "evidence_file": "/verif/evidence/%s.json" % p["id"],
         "replay_cmd_template": "./check %s --replay {path}" % p["id"],
         "engine": "mirfacts+rules",
-        "level_claimed": {"category": "other", "text": c["text"], "design_ref": c["design"]},
+        "level_claimed": {"category": "other", "text": c["text"] + ADD.get(p["id"], ""), "design_ref": c["design"] + ", R2"},
         "level_note": NOTE,
         "technique": c["technique"],
     })
